@@ -15,13 +15,17 @@ def run(ctx):
     binp = snapalg.build()
     run_ = snapalg.Run(ctx)
     if ctx.tier == "quick":
-        fams_laws, fams_a, nb, seeds, par = ["PairQuick", "PairZero", "PairOrderQuick", "PairLimitQuick"], ["PairQuick", "PairZero", "PairOrderQuick", "PairLimitQuick"], 80, 1, 4
+        fams_laws = ["PairQuick", "PairZero", "PairOrderQuick", "PairLimitQuick", "ChainRawQuick"]
+        fams_a, nb, seeds, par = list(fams_laws), 80, 1, 4
+        more_b = [("chainraw", 6)]
     else:
         fams_laws = ["PairMedium", "PairExplicit", "PairThorough", "PairZero", "PairOrderThorough", "PairLimitThorough", "BigPair"]
-        fams_a = ["PairMedium", "PairExplicit", "PairThorough", "PairZero", "PairOrderThorough", "PairLimitThorough", "BigPair"]
+        fams_laws.append("ChainRawThorough")
+        fams_a = list(fams_laws)
         nb, seeds, par = 400, 4, 8
+        more_b = [("chainraw", 40)]
     paths = snapalg.run_all(ctx, run_, binp, fams_laws, fams_a, "pair", nb, seeds=seeds, par=par,
-                            law_workers=2 if ctx.tier == "quick" else 3)
+                            law_workers=2 if ctx.tier == "quick" else 3, more_b=more_b)
     if ctx.tier == "thorough" and paths:
         def mut(ev):
             ev["r_ints"]["res"]["crc"] = ev["r_ints"]["res"]["crc"] ^ 1
